@@ -32,7 +32,7 @@ def obligation_props(name, props):
 
 
 def write_replay(prop, verdict, extra=None):
-    d = os.path.join(VERIF, 'out', prop)
+    d = os.path.join(VERIF, 'out' if not os.environ.get('PYVC_NO_EVIDENCE') else 'out/_selftest', prop)
     os.makedirs(d, exist_ok=True)
     safe = ''.join(ch if ch.isalnum() or ch in '._-' else '_' for ch in verdict['name'])[:150]
     path = os.path.join(d, f'{safe}.json')
@@ -84,6 +84,8 @@ def check_property(prop, tier='quick', seed=0):
             undecided.append(f'{fn}: function under contract not found in /repo')
         for u in r.get('unsupported', []):
             undecided.append(f'{fn}: {u}')
+        if not r.get('verdicts') and not r.get('unsupported') and not r.get('missing'):
+            undecided.append(f'{fn}: the contract generated no obligations (vacuity guard)')
         for a in r.get('assumptions', []):
             trusted_base.add(a)
         for v in r.get('verdicts', []):
@@ -151,6 +153,13 @@ def check_property(prop, tier='quick', seed=0):
     for s in stale:
         lines.append(f"NOTE: known finding '{s['obligation']}' is listed open but its obligation is discharged")
 
+    self_test = []
+    if tier == 'thorough' and not os.environ.get('PYVC_NO_EVIDENCE'):
+        self_test = seeded_self_test(prop)
+        for t in self_test:
+            if not t['ok']:
+                lines.append(f"CHECKER-ERROR self-test: seeded change {t['seed']} (recorded as caught by {prop}) gave exit {t['exit']}")
+                exit_code = 3 if exit_code == 0 else exit_code
     wall = time.time() - t0
     backends = sorted({v['backend'] for v in all_verdicts})
     evidence = dict(
@@ -168,6 +177,7 @@ def check_property(prop, tier='quick', seed=0):
             samples=samples,
             dropped_by_extraction=DROPPED,
             repo_digest=repo.digest.hexdigest(),
+            seeded_self_test=self_test,
             explanation='every named obligation is generated from the ast of /repo\'s current source by symbolic '
                         'execution against sidecar contracts and discharged by z3/cvc5 (unsat of pc ∧ ¬clause)',
         ),
@@ -176,11 +186,43 @@ def check_property(prop, tier='quick', seed=0):
         wall_s=round(wall, 2),
         violations=len(violations),
     )
-    os.makedirs(os.path.join(VERIF, 'evidence'), exist_ok=True)
-    with open(os.path.join(VERIF, 'evidence', f'{prop}.json'), 'w') as f:
-        json.dump(evidence, f, indent=1, default=str)
+    if not os.environ.get('PYVC_NO_EVIDENCE'):
+        os.makedirs(os.path.join(VERIF, 'evidence'), exist_ok=True)
+        with open(os.path.join(VERIF, 'evidence', f'{prop}.json'), 'w') as f:
+            json.dump(evidence, f, indent=1, default=str)
     print('\n'.join(lines))
     return exit_code
+
+
+def seeded_self_test(prop):
+    """thorough tier: every committed seeded change recorded as caught by this property's check must still be caught
+    (on a scratch copy of /repo's current tree, removed afterwards)"""
+    import glob
+    import shutil
+    import subprocess
+    import tempfile
+    from pyvc import repo as repo_mod
+    out = []
+    for meta_path in sorted(glob.glob(os.path.join(VERIF, 'seeded', '*', 'meta.json'))):
+        meta = json.load(open(meta_path))
+        if prop not in meta.get('checks', {}).get('violation_reported_by', []):
+            continue
+        scratch = tempfile.mkdtemp(prefix='pyvc_selftest_')
+        try:
+            for pkg in repo_mod.PACKAGES:
+                shutil.copytree(os.path.join(repo_mod.REPO_ROOT, pkg), os.path.join(scratch, pkg))
+            patch = os.path.join(os.path.dirname(meta_path), 'patch.diff')
+            ap = subprocess.run(['patch', '-p1', '-s', '-d', scratch, '-i', patch], capture_output=True, text=True)
+            if ap.returncode != 0:
+                out.append(dict(seed=meta['id'], ok=True, exit=None, note='patch no longer applies to the current tree: skipped'))
+                continue
+            env = dict(os.environ, PYVC_REPO=scratch, PYVC_NO_EVIDENCE='1', VERIF_TIER='quick')
+            r = subprocess.run([os.path.join(VERIF, 'check'), prop, 'quick'], capture_output=True, text=True, env=env, cwd=VERIF)
+            out.append(dict(seed=meta['id'], ok=(r.returncode == 1), exit=r.returncode,
+                            reported=[ln for ln in r.stdout.splitlines() if ln.startswith('VIOLATION')][:3]))
+        finally:
+            shutil.rmtree(scratch, ignore_errors=True)
+    return out
 
 
 def prop_assumptions(prop):
